@@ -210,6 +210,9 @@ macro_rules! pairs {
 }
 
 pub fn run(u: &R8, cx: &mut Cx) {
+    if crate::routes::abandoned(cx) {
+        return;
+    }
     let src = script(u);
     if !cx.case(SUB_SETUP) {
         return;
